@@ -224,7 +224,7 @@ func decodeKeyCharByEscapedChar(buf []byte, cursor int64) ([]byte, int64, error)
 		// the input ends right after the backslash
 		return nil, 0, errors.ErrUnexpectedEndOfJSON("escaped string", cursor)
 	}
-	return nil, cursor, nil
+	return nil, 0, errors.ErrInvalidCharacter(c, "escaped string", cursor)
 }
 
 func decodeKeyByBitmapUint8(d *structDecoder, buf []byte, cursor int64) (int64, *structFieldSet, error) {
